@@ -72,6 +72,10 @@ claim("C16", "decision-table agreement, who-may-write (MIR field writes), effect
       "Thin but exact: the two places of run_once that decide what a counterexample is (first keep, replay cache) carry explicit three-row tables that agree and match the meaning of `fail` tests; Counterexample.value/choices are written only in consider, together, under Keep, from the replayed choices; every runnable gets the run's seed unchanged; the only clock call in the framework is the reviewed display-only one; every len()-k in simplify is guarded by a test of the same vector.",
       "termination and minimality of simplify, the cache's prefix rule and shortlex monotonicity are arithmetic on runtime values and are not decided", "DESIGN.md §3 C16", "shape+flow")
 
+claim("C13", "composition of four operator tables (formatter, lexer, token display, two parsers), precedence-layer and associativity agreement, arm totality",
+      "Thin: for all 13 binary operators the text the formatter prints is lexed to a token that both expression parsers turn back into the same operator, and Token's Display prints what the lexer reads; the parser's layer nesting orders operators as BinOp::precedence() (which the formatter parenthesises by); the formatter's right-associative set equals the set of layers the parser folds to the right, with the matching side lowered; Formatter::expr/pattern/annotation/definition have an explicit arm per variant.",
+      "layout-dependent re-parsing, comment placement, idempotence and shape-specific defects are not decided; a defect such as `Foo { i: _, b: True }` -> `Foo(i: _, b: True)` is outside these rules' reach", "DESIGN.md §3 C13", "shape")
+
 
 def main():
     props = [json.loads(l) for l in open(os.path.join(HERE, "properties.jsonl"))]
